@@ -353,6 +353,13 @@ func c10Malformed(t *rapid.T) {
 		}
 		count += 2
 	}
+	// numbers in another base or with digit separators, followed by a payload that matches the value they would have
+	for _, m := range []string{"$0x2\r\nab\r\n", "$0X2\r\nab\r\n", "$0b10\r\nab\r\n", "$0o2\r\nab\r\n", "$0_2\r\nab\r\n", "*0x1\r\n:1\r\n", "*0b1\r\n+a\r\n", ":0x10\r\n", ":1_0\r\n", ":0b1\r\n", ":0o17\r\n"} {
+		if mustErr(t, "non-decimal-number", []byte(m)) {
+			return
+		}
+		count++
+	}
 	// unknown type byte inside an array
 	tb := rapid.Byte().Draw(t, "tb")
 	switch tb {
